@@ -49,9 +49,17 @@ func (w *vWorld) checkAcks(acks []verifAck, when string) {
 			continue
 		}
 		st := leaves[a.leaf.LeafIndex]
+		// the Merkle-covered fields are those of the submission; the stored pre-certificate (not covered,
+		// not part of the deduplication key) is that of the submission or of an equal submission
+		// acknowledged with it (two pre-certificates over the same TBS are one leaf)
+		pre := verifBytesEq(st.PreCertificate, a.sub.PreCertificate)
+		for _, b := range acks {
+			if b.sub != a.sub && b.sub.IsPrecert == a.sub.IsPrecert && b.sub.IssuerKeyHash == a.sub.IssuerKeyHash && verifBytesEq(b.sub.Certificate, a.sub.Certificate) {
+				pre = verifOr(pre, verifBytesEq(st.PreCertificate, b.sub.PreCertificate))
+			}
+		}
 		verifAssert(st.Timestamp == a.leaf.Timestamp && st.IsPrecert == a.sub.IsPrecert &&
-			verifBytesEq(st.Certificate, a.sub.Certificate) && st.IssuerKeyHash == a.sub.IssuerKeyHash &&
-			verifBytesEq(st.PreCertificate, a.sub.PreCertificate),
+			verifBytesEq(st.Certificate, a.sub.Certificate) && st.IssuerKeyHash == a.sub.IssuerKeyHash && pre,
 			"the stored leaf at an acknowledged index is not the submitted entry "+when)
 	}
 }
